@@ -106,14 +106,19 @@ def cells_source(c, name=None):
         lines.append("    " + tick)
     if c.get("form") == "deflines":
         # one term per line, so that the line of every call is known:  a<i> = <term>
-        # guard 1: the line sits in try/finally; guard 2: in try/except with a clause that never matches
+        # guard 1: the line sits in try/finally; guard 2: in try/except with a clause that never matches;
+        # guard [3, e]: try/finally whose finally block evaluates e
         guards = c.get("guards") or [0] * len(c["terms"])
         for i, t in enumerate(c["terms"]):
             g = guards[i] if i < len(guards) else 0
             if g:
                 lines.append("    try:")
                 lines.append("        a%d = %s" % (i, render(t)))
-                if g == 1:
+                if isinstance(g, list):
+                    # guard [3, e]: the finally block evaluates another expression while the failure passes
+                    lines.append("    finally:")
+                    lines.append("        _ = %s" % render(g[1]))
+                elif g == 1:
                     lines.append("    finally:")
                     lines.append("        _ = 0")
                 else:
